@@ -14,7 +14,7 @@ EncDQ(s) == IF s = <<>> THEN <<>> ELSE (IF Head(s) = "QUOT" THEN <<"BSL", "QUOT"
 RECURSIVE JoinWith(_, _)
 JoinWith(ss, sep) == IF ss = <<>> THEN <<>> ELSE IF Len(ss) = 1 THEN Head(ss) ELSE Head(ss) \o sep \o JoinWith(Tail(ss), sep)
 
-FloatLit(e) == LET f == F(e.num, e.exp) IN IF f.exp = 0 THEN FloatChars(f) \o <<".", "0">> ELSE FloatChars(f)
+FloatLit(e) == LET f == F(e.num, e.exp) IN IF f.exp = 0 THEN PlainFloatChars(f) \o <<".", "0">> ELSE PlainFloatChars(f)
 
 RECURSIVE UnE(_), UnS(_), UnB(_)
 
